@@ -592,3 +592,106 @@ def _register(mod, name, dims, dtype, extra):
 
 for _c in CLASSES:
     _register(*_c)
+
+
+# the breeding-value matrices override the taxa operations (they rebuild the object from unscaled values): their label obligations --
+# labels moved by the same operator as the values, an explicit label array wins over the operand's own, the other is inherited --
+# are the C15 unit, run here as well
+from contracts import C15 as _c15
+
+
+@unit(P, "A1[breeding-value matrices: select/delete/insert/adjoin_taxa move values and labels by the same operator; explicit labels win]", "A1",
+      targets=[_c15.BV + ":DenseBreedingValueMatrix.select_taxa", _c15.BV + ":DenseBreedingValueMatrix.delete_taxa",
+               _c15.BV + ":DenseBreedingValueMatrix.insert_taxa", _c15.BV + ":DenseBreedingValueMatrix.adjoin_taxa"])
+def u_bv_taxa_ops(ctx):
+    fn = [s_.fn for s_ in _c15._U.UNITS["C15"] if s_.name.startswith("A1[select/delete")][0]
+    return fn(ctx)
+
+
+# ---------------------------------------------------------------------------
+# native: a matrix operand plus ONE explicit label array (the other label comes from the operand)
+def _override_case(case):
+    import importlib
+    import numpy as np
+    mod, cname, kind = case["cls"]
+    C = getattr(importlib.import_module(mod), cname)
+    rs = np.random.RandomState(case["seed"])
+    n1, n2, w = case["n1"], case["n2"], case["w"]
+
+    def mk(n, off):
+        taxa = np.array(["t%d" % (off + i) for i in range(n)], dtype=object)
+        grp = np.array([(off + i) % 3 + 1 for i in range(n)], dtype="int64")
+        if kind == "bv":
+            raw = rs.normal(size=(n, w)) * 2 + off
+            return C.from_numpy(raw, taxa=taxa, taxa_grp=grp), raw
+        if kind == "phased":
+            raw = rs.randint(0, 2, size=(2, n, w)).astype("int8")
+            return C(mat=raw.copy(), taxa=taxa, taxa_grp=grp), raw
+        raw = rs.randint(0, 3, size=(n, w)).astype("int8") if kind == "geno" else rs.normal(size=(n, w))
+        return C(mat=raw.copy(), taxa=taxa, taxa_grp=grp), raw
+    a, araw = mk(n1, 0)
+    b, braw = mk(n2, 100)
+    which = case["which"]
+    new = np.array(["x%d" % i for i in range(n2)], dtype=object) if which == "taxa" else np.array([7 + i for i in range(n2)], dtype="int64")
+    kw = {which: new}
+    form = case["form"]
+    if form == "adjoin":
+        out = a.adjoin_taxa(b, **kw)
+    elif form == "append":
+        out = a
+        a.append_taxa(b, **kw)
+    else:
+        out = a.insert_taxa(np.array([0] * n2), b, **kw) if form == "insert" else None
+    ax = 1 if kind == "phased" else 0
+    want_taxa = list(new if which == "taxa" else b.taxa)
+    want_grp = [int(x) for x in (new if which == "taxa_grp" else b.taxa_grp)]
+    if form == "insert":
+        exp_taxa, exp_grp = want_taxa + ["t%d" % i for i in range(n1)], want_grp + [i % 3 + 1 for i in range(n1)]
+        exp_raw = np.concatenate([braw, araw], axis=ax)
+    else:
+        exp_taxa, exp_grp = ["t%d" % i for i in range(n1)] + want_taxa, [i % 3 + 1 for i in range(n1)] + want_grp
+        exp_raw = np.concatenate([araw, braw], axis=ax)
+    what = "%s.%s_taxa(<matrix of %d taxa>, %s=<explicit>)" % (cname, form, n2, which)
+    if list(out.taxa) != exp_taxa:
+        return True, "%s: taxa %r, expected %r (explicit array wins, otherwise the operand's own names)" % (what, list(out.taxa), exp_taxa)
+    if [int(x) for x in out.taxa_grp] != exp_grp:
+        return True, "%s: taxa_grp %r, expected %r (explicit array wins, otherwise the operand's own groups)" % (
+            what, [int(x) for x in out.taxa_grp], exp_grp)
+    got = out.unscale() if kind == "bv" else out.mat
+    if got.shape != exp_raw.shape or not np.allclose(got, exp_raw, rtol=1e-9, atol=1e-9):
+        return True, "%s: data cells are not the two operands' rows in label order" % what
+    return False, "ok"
+
+
+_OVR = [("pybrops.core.mat.DenseTaxaMatrix", "DenseTaxaMatrix", "plain"), ("pybrops.core.mat.DenseTaxaVariantMatrix", "DenseTaxaVariantMatrix", "plain"),
+        ("pybrops.core.mat.DenseTaxaTraitMatrix", "DenseTaxaTraitMatrix", "plain"),
+        ("pybrops.popgen.gmat.DenseGenotypeMatrix", "DenseGenotypeMatrix", "geno"),
+        ("pybrops.popgen.gmat.DensePhasedGenotypeMatrix", "DensePhasedGenotypeMatrix", "phased"),
+        ("pybrops.popgen.bvmat.DenseBreedingValueMatrix", "DenseBreedingValueMatrix", "bv"),
+        ("pybrops.popgen.bvmat.DenseGenomicEstimatedBreedingValueMatrix", "DenseGenomicEstimatedBreedingValueMatrix", "bv")]
+
+
+@unit(P, "ring[matrix operand plus one explicit label array: the explicit labels win, the other label is the operand's own]", "R", bounded=True,
+      note="bounded: 7 classes x {adjoin, append, insert} x {taxa, taxa_grp} x sizes <=3 x widths <=3, seeded values")
+def u_ring_override(ctx):
+    ctx.rule = "all combinations of class, operation form and overridden label for seeded sizes; every case non-trivial; distinct by its input"
+    for cls in _OVR:
+        for form in ("adjoin", "append", "insert"):
+            if form == "append" and cls[2] == "bv":
+                continue        # the inherited in-place append of the breeding-value matrices splices scaled values: recorded finding C03-F44
+            for which in ("taxa", "taxa_grp"):
+                for rep in range(3 if ctx.tier == "quick" else 40):
+                    case = dict(cls=list(cls), form=form, which=which, n1=ctx.rng.choice([1, 2, 3]), n2=ctx.rng.choice([1, 2, 3]),
+                                w=ctx.rng.choice([1, 2, 3]), seed=ctx.rng.randrange(10 ** 6))
+                    try:
+                        bad, msg = _override_case(case)
+                    except Exception as x:
+                        bad, msg = True, "exception %s: %s" % (type(x).__name__, x)
+                    ctx.case(repr(sorted(case.items())), nontrivial=True, sample=case if rep == 0 and form == "adjoin" else None)
+                    if bad:
+                        ctx.fail_input("ring:label-override:%s:%s" % (cls[1], form), case, cls="label-override:%s" % cls[1], message=msg)
+                        if len(ctx.failures) >= 4:
+                            return
+
+
+REPLAYERS["ring[matrix operand plus one explicit label array: the explicit labels win, the other label is the operand's own]"] = _override_case
